@@ -8,7 +8,7 @@ from __future__ import annotations
 import copy
 from fractions import Fraction as F
 
-from mc import builder
+from mc import builder, canon, fileio
 from refs import ojn as ro
 
 ID = "C07"
@@ -322,6 +322,9 @@ def run_doc(doc, lab, case, ctx, key, nontrivial=True):
         ctx.check("raises", False, site=dict(site, exc=type(e).__name__, tempo_events_in_first_difficulty=min(tempo_events[0], 2)), case=case, observed=f"{type(e).__name__}: {e}"[:300], expected="a mapset")
         return
     ctx.passed("raises")
+    if len(lab["devs"]) <= 1:
+        # the file entry point: read_file of a file holding these bytes denotes what read(bytes) gave
+        fileio.check_file_entry_points(ctx, "o2j", data, ms, canon.canon_mapset, dict(route="file-entry"), case)
     # header
     h = pdoc["header"]
     exp_h = dict(h, package_count=tuple(len(d) for d in pdoc["diffs"]))
